@@ -1043,6 +1043,8 @@ pub struct Gen {
     pub sent: Vec<Vec<u8>>,
     pub join_nonce: u32,
     pub walk: usize,
+    /// the FOpts command stream of the previous authentic downlink (sometimes sent again: commands are idempotent)
+    pub last_fopts: Vec<u8>,
 }
 
 fn rnd_vec(rng: &mut StdRng, n: usize) -> Vec<u8> {
@@ -1051,7 +1053,7 @@ fn rnd_vec(rng: &mut StdRng, n: usize) -> Vec<u8> {
 
 impl Gen {
     pub fn new(seed: u64, cfg: GenCfg) -> Gen {
-        Gen { rng: StdRng::seed_from_u64(seed), cfg, sent: vec![], join_nonce: 1, walk: 0 }
+        Gen { rng: StdRng::seed_from_u64(seed), cfg, sent: vec![], join_nonce: 1, walk: 0, last_fopts: vec![] }
     }
 
     fn cflist(&mut self) -> (i32, Vec<u8>) {
@@ -1142,7 +1144,17 @@ impl Gen {
             let (fopts, port, payload): (Vec<u8>, i32, Vec<u8>) = if with_cmds && g.rng.gen_bool(0.35) {
                 (vec![], 0, cmd_stream(&mut g.rng, &region, 40))
             } else {
-                let fo = if with_cmds { cmd_stream(&mut g.rng, &region, 15) } else { vec![] };
+                let fo = if with_cmds && !g.last_fopts.is_empty() && g.rng.gen_ratio(1, 6) {
+                    // the network repeats its previous command stream (e.g. it has not seen the answers yet)
+                    g.last_fopts.clone()
+                } else if with_cmds {
+                    cmd_stream(&mut g.rng, &region, 15)
+                } else {
+                    vec![]
+                };
+                if !fo.is_empty() {
+                    g.last_fopts = fo.clone();
+                }
                 match g.rng.gen_range(0..4) {
                     0 => (fo, -1, vec![]),
                     _ => {
@@ -1201,14 +1213,21 @@ impl Gen {
                 // total frame length L = 13 + len; window limits are max MACPayload + 5 for 19/59/61/123/133/137/250
                 let len = [10usize, 11, 12, 50, 51, 52, 53, 54, 114, 115, 116, 124, 125, 126, 128, 129, 130, 241, 242]
                     [self.rng.gen_range(0..19)];
+                // half of them carry k bytes of FOpts (DevStatusReq x k) with the payload shortened so that the frame
+                // stays within k + 1 bytes of the same boundaries: the size limit is on the whole frame, whatever its
+                // division into header options and payload
+                let k = if self.rng.gen_bool(0.5) { self.rng.gen_range(1..=5usize) } else { 0 };
+                let fo = vec![0x06u8; k];
+                let len = if k == 0 { len } else { len.saturating_sub(k) + self.rng.gen_range(0..=k + 1) };
+                let len = len.min(242 - k); // a LoRa PHY payload has at most 255 bytes
                 let pl = rnd_vec(&mut self.rng, len);
                 let auth = self.rng.gen_bool(0.5);
-                let mut b = net.data(n, false, false, &[], 9, &pl, false, false);
+                let mut b = net.data(n, false, false, &fo, 9, &pl, false, false);
                 if !auth {
                     let l = b.len();
                     b[l - 1] ^= 0x55;
                 }
-                (b, format!("big:{len}:auth={}", auth as u8))
+                (b, format!("big:{len}:fo={k}:auth={}", auth as u8))
             }
             7 => (self.join_accept_frame().bytes, "ja-while-joined".into()),
             _ => {
@@ -1308,11 +1327,14 @@ impl Gen {
             let mut fopts = vec![0x05, (off << 4) | rx2dr, f[0], f[1], f[2], 0x08, del];
             // LinkADRReq: data rate, keep power, all channels on
             fopts.extend_from_slice(&[0x03, (dr << 4) | 0x0f, 0xff, 0xff, 0x60]);
-            if !fixed && tuple % 5 == 0 {
-                // fits only without the RXTimingSetupReq
+            if !fixed && t % 5 <= 1 {
+                // fits only without the RXTimingSetupReq.  Every fifth step maps a downlink frequency to a channel;
+                // the step after it repeats the very same DlChannelReq (what a network does until it has seen the
+                // answer): the mapping must stay.
+                let t0 = t - t % 5;
                 fopts.truncate(5);
-                let df = freq3(lo + 100_000 * ((tuple as u32) % 7));
-                fopts.extend_from_slice(&[0x0A, (tuple % 3) as u8, df[0], df[1], df[2]]);
+                let df = freq3(lo + 100_000 * ((t0 as u32) % 7));
+                fopts.extend_from_slice(&[0x0A, (t0 % 3) as u8, df[0], df[1], df[2]]);
                 fopts.extend_from_slice(&[0x03, (dr << 4) | 0x0f, 0xff, 0xff, 0x60]);
             }
             let (nwk, app, addr) = v.keys.unwrap();
@@ -1500,7 +1522,7 @@ pub fn mutate_doc(rng: &mut StdRng, doc: &str) -> String {
         9 => { v["confirmed"] = json!(1); }
         10 => { v["adr_ack_cnt"] = json!([63u32, 64, 95, 96, 1_000_000][rng.gen_range(0..5)]); }
         11 => { v["fcnt_down"] = json!(4294967295u64); v["fcnt_up"] = json!(4294967295u64); }
-        12 => { v["uplink"].as_object_mut().unwrap().remove("confirmed"); }
+        12 => { if let Some(o) = v["uplink"].as_object_mut() { o.remove("confirmed"); } }
         13 => { v["extra"] = json!({"x": 1}); }
         14 => { let d: Vec<u8> = (0..16).map(|_| rng.r#gen()).collect(); v["uplink"]["pending_data"] = json!(d); }
         _ => {
